@@ -475,6 +475,16 @@ func (r *Resolver) resolve(ctx context.Context, rs *resolveState) (*dns.Msg, err
 	if len(resp.Answer) > 0 && rs.servers.Zone != rootzone {
 		resp.Answer = dnsutil.FilterRRsToZone(resp.Answer, rs.servers.Zone)
 	}
+	// Inside the zone the same holds for owners: the answer to a question is
+	// the RRsets of the name that was asked and, where that name is an alias,
+	// of each target the chain leads to (RFC 1034 §4.3.2 step 3a, RFC 6672
+	// §3.2). A record of any other owner — however genuinely signed — is not
+	// part of that answer, and it would be taken for one: the cache's chase
+	// stops at the first record of the question's type and the NS address
+	// collector takes every address it finds, neither looking at the owner.
+	if len(resp.Answer) > 0 {
+		resp.Answer = answerChain(resp.Answer, minReq.Question[0].Name)
+	}
 
 	serverFailureResponse := false
 	if resp.Rcode != dns.RcodeSuccess {
